@@ -86,7 +86,7 @@ fn generate(rng: &mut Rng, index: u64) -> ConnScenario {
     let nflip = valid.len() as u64 * 8;
     let ntrunc = valid.len() as u64 + 1;
     let nother = 14u64;
-    let v = index % (1 + ntrunc + nflip + nother);
+    let v = if index % 4 == 3 { 0 } else { (index / 4 * 3 + index % 4) % (1 + ntrunc + nflip + nother) };
     let presented: Option<Vec<u8>> = if v == 0 {
         Some(valid.clone())
     } else if v < 1 + ntrunc {
@@ -171,6 +171,7 @@ pub fn check(sc: &ConnScenario, out: &ConnOutcome, rep: &mut RunReport) {
         rep.violate("no_panic", format!("handler panicked: {}", out.panics[0]));
         return;
     }
+    check_service_addresses(sc, out, rep);
     let cookie_t = out.view.sent.iter().filter(|s| s.kind == "CookieResponse").nth(1).map(|s| s.t_ns).unwrap_or(0);
     let pred = cookie_accepted(c.intent, sc.cfg.secret.as_deref(), c.auth_cookie.as_deref(), &sc.cfg.client_addr, wall_at(sc, cookie_t), expiry_of(sc));
     let enc_req = out.view.first("EncryptionRequest");
